@@ -385,8 +385,8 @@ def discover_programs(ctx):
                         continue
                     if "\nfunc main" in "\n" + src:           # a program, not a package file
                         repo.append(("repo", os.path.join(dp, f), f))
-    if ctx.tier == "quick" and len(repo) > 14:
-        repo = sorted(ctx.rng.sample(repo, 14), key=lambda t: t[1])
+    if ctx.tier == "quick" and len(repo) > 8:
+        repo = sorted(ctx.rng.sample(repo, 8), key=lambda t: t[1])
     progs += repo
     try:
         from gen import progs as genprogs          # optional shared program generator
@@ -441,7 +441,7 @@ def run_one_program(ctx, h, tag, path, vname, k, engines):
 
 def whole_modules(ctx, h, ev):
     progs = discover_programs(ctx)
-    engines = ["emb", "interpreter", "node"] + (["compiler"] if ctx.tier != "quick" else [])
+    engines = ["emb", "node"] + (["interpreter", "compiler"] if ctx.tier != "quick" else [])
     skipped = collections.Counter()
     ran, samples, outcomes = 0, [], collections.Counter()
     with cf.ThreadPoolExecutor(8) as ex:
